@@ -352,7 +352,20 @@ struct CppWorld : World {
         Cipher c[NC];
         HSlot h[NH];
         std::vector<Bytes> *residue;
+        ascon::byte_array out_m, out_c; // output arrays the "application" reuses from call to call
     };
+
+    // An application keeps an earlier result by value (keep = out) and hands the same output array to the next call.
+    // The kept value is what the C function returned then and must still be that afterwards (with ASCON_NO_STL the
+    // arrays share one reference-counted buffer until one of them is written).
+    static void kept_copy_check(Ctx &c, const std::string &site, const ascon::byte_array &keep, const Bytes &keepb)
+    {
+        if (!c.record) return;
+        c.run->probe("packet.output_array_reused_with_kept_copy");
+        if (Bytes(keep.begin(), keep.end()) != keepb)
+            viol(c, "equals_c_api", site + ".kept_copy_of_earlier_result",
+                 fmt("a by-value copy of the previous result (%zu bytes) now holds %zu bytes / different content after the output array was reused", keepb.size(), (size_t)keep.size()));
+    }
 
     static void viol(Ctx &c, const char *oracle, const std::string &site, const std::string &detail)
     {
@@ -515,9 +528,14 @@ struct CppWorld : World {
                 if (c.record && !o.intact()) c.run->violation("C12", "canary", site, "ciphertext canary damaged");
                 got = o.copy();
             } else {
-                ascon::byte_array cv, mv(m.begin(), m.end()), av(ad.begin(), ad.end());
+                ascon::byte_array cv0, mv(m.begin(), m.end()), av(ad.begin(), ad.end());
+                bool reuse = (sd >> 21) & 1;
+                ascon::byte_array &cv = reuse ? c.out_c : cv0;
+                ascon::byte_array keep = cv;
+                Bytes keepb(keep.begin(), keep.end());
                 if (ov & 1) C.obj->encrypt(cv, mv); else C.obj->encrypt(cv, mv, av);
                 got.assign(cv.begin(), cv.end());
+                if (reuse) kept_copy_check(c, site, keep, keepb);
             }
             C.nonce += 1;
             if (c.record) {
@@ -546,16 +564,21 @@ struct CppWorld : World {
                 if (ok) got.assign(o.p, o.p + (size_t)std::min<size_t>((size_t)ret, o.n));
             }
         } else {
-            ascon::byte_array mv(3, 0x55), cv(x.begin(), x.end()), av(ad.begin(), ad.end());
+            ascon::byte_array mv0(3, 0x55), cv(x.begin(), x.end()), av(ad.begin(), ad.end());
+            bool reuse = (sd >> 21) & 1;
+            ascon::byte_array &mv = reuse ? c.out_m : mv0;
+            ascon::byte_array keep = mv;
+            Bytes keepb(keep.begin(), keep.end());
             ok = (ov & 1) ? C.obj->decrypt(mv, cv) : C.obj->decrypt(mv, cv, av);
             got.assign(mv.begin(), mv.end());
+            if (reuse) kept_copy_check(c, site, keep, keepb);
             ret = ok ? (int)got.size() : -1;
             // what the output array holds after a reported failure is not documented: empty, all zero, or simply left as
             // it was are all fine; bytes that come from the rejected packet are not
             if (!ok) {
-                bool zeros = true;
-                for (uint8_t x2 : got) if (x2) zeros = false;
-                if (!got.empty() && !zeros && got != Bytes(3, 0x55))
+                bool zeros = true; // every byte is zero or what the array held at that place before the call
+                for (size_t i2 = 0; i2 < got.size(); ++i2) if (got[i2] && !(i2 < keepb.size() && got[i2] == keepb[i2])) zeros = false;
+                if (!got.empty() && !zeros)
                     viol(c, "failed_decrypt_releases_nothing", site, fmt("byte_array holds %zu bytes that are neither zero nor its previous content after a failed decrypt", got.size()));
             }
         }
